@@ -392,6 +392,7 @@ package participle
 //@   modifies lex.Checkpoint
 //@   ensures plInv(lex) && lex.rawCursor >= old(lex.rawCursor) && lex.cursor >= old(lex.cursor)
 //@   ensures result != nil ==> result == NextMatch || uf("user_error", "Bool", result)
+//@   ensures result == NextMatch ==> lex.Checkpoint == old(lex.Checkpoint)
 
 // parseNodeFor looks up the node for the target's type by reflection. Assumed (established by Build, by
 // inspection): for the grammar type the parser was built for, the node exists and is well-formed.
@@ -778,3 +779,10 @@ package participle
 //@   requires root != nil && wf(iface(root))
 //@   loop 1 invariant nullable != nil && fresh(nullable)
 //@   loop 1 nonterminating-ok
+
+// A production implemented by user code through Parseable: the proxy node hands the user code the context's
+// own PeekingLexer and maps NextMatch to "no match". (custom productions call user code through
+// reflect.Value.Call, which this framework cannot see into: assumed to satisfy the same interface contract.)
+//@ func (*parseable).Parse [C06 C02 C01]
+//@   implements node.Parse
+//@   allow-kind typeassert "reflect.New(p.t) implements Parseable: established when the node was built (parseType)"
